@@ -275,6 +275,15 @@ def search(ctx, budget):
                 except Exception as ex:  # noqa
                     if not bad:
                         ctx.fail("C17:vector-exc", f"{f.__name__}({vals} as {v.dtype}) raised {type(ex).__name__}", {"op": f.__name__, "arg": zs, "dtype": np.dtype(dt).name, "view": v.dtype.name})
+    # no atoms at all: an empty selection has empty radii / names / symbols, it is not an error
+    for f in (E.cov_radii, E.vdw_radii, E.element_names, E.element_symbols):
+        ctx.case(["vector-empty", f.__name__])
+        try:
+            r = f(np.array([], dtype=int))
+            if len(r) != 0:
+                ctx.fail("C17:vector-value", f"{f.__name__}(empty array) returned {len(r)} values", {"op": f.__name__, "arg": []})
+        except Exception as ex:  # noqa
+            ctx.fail("C17:vector-exc", f"{f.__name__}(empty integer array) raised {type(ex).__name__}: {ex}", {"op": f.__name__, "arg": []})
     for _ in range(n // 4):
         zs = [rng.randint(1, 103) for _ in range(rng.randint(1, 8))]
         bad = rng.random() < 0.4
